@@ -522,7 +522,9 @@ class Checker:
                     rest.append(v)
             viols = rest
             for fid, v in known:
-                if fid in self.unmodelled and v.get('channel') is not None:
+                # (a violation may lie in several recorded classes; it is attributed to the first one)
+                if v.get('channel') is not None and any(u in self.open_ids and u in self.known_classes
+                                                        and self.known_classes[u](rec, v) for u in self.unmodelled):
                     diffs = [d for d in diffs if not d.startswith('samples on %s differ' % v['channel'])]
         if count:
             ctx.case(rec['line'], nontrivial=impl['status'] == 'ok' and len(rec['meta']['kinds']) > 1)
